@@ -185,7 +185,27 @@ func (s *c12State) liveCells() []*c12Owner {
 
 func (s *c12State) step() (string, string) {
 	r, t := s.r, s.t
-	switch r.Intn(18) {
+	switch r.Intn(19) {
+	case 18:
+		// a cell that carries properties is used as the ITEM of a new cell (NewCell(c), AddRowItems(.., c)): the new
+		// cell shows the inner cell's text, but it is a new owner and starts with nothing set
+		cs := s.liveCells()
+		if len(cs) == 0 {
+			return "", ""
+		}
+		src := cs[r.Intn(len(cs))]
+		var inner tabular.Cell
+		if src.cellCopy != nil {
+			inner = *src.cellCopy
+		} else {
+			inner = *(src.acc()[0].(*tabular.Cell))
+		}
+		outer := tabular.NewCell(inner)
+		po := &outer
+		o := &c12Owner{name: fmt.Sprintf("new cell#%d whose item is a copy of (%s)", len(s.owners), src.name), isCell: true, cellCopy: po, m: map[interface{}]interface{}{}}
+		o.acc = func() []tabular.PropertyOwner { return []tabular.PropertyOwner{po} }
+		s.addOwner(o)
+		s.say("%s := NewCell(that cell)", o.name)
 	case 17:
 		// other things a program does to an owner between a set and a get: a cell is asked to re-read its item
 		// (the documented step after mutating an item); none of that is a property operation
@@ -579,7 +599,7 @@ func init() {
 	register(&Prop{
 		ID:    "C12",
 		Level: "exploration",
-		Rule: "phase 0: random histories of 10-80 steps over set / set-nil / repeated set / copy-cell-by-value / copy-column-by-value / copy-row-by-value / set properties on a cell before adding it / capture column handle / grow table (rows wider than the column bookkeeping's capacity) / extend attached row / add separator / render pass / Cell.Update, with an 18-key universe (int(1), int64(1), uint8(1), two named ints, \"1\", float64(1), true, two distinct pointers to equal structs, a struct, an array, align.PropertyType, properties.Skipable, rune, \"a\",\"b\",\"c\"); after EVERY step all (owner, accessor, key) triples are read back and compared with the reference maps. " +
+		Rule: "phase 0: random histories of 10-80 steps over set / set-nil / repeated set / copy-cell-by-value / copy-column-by-value / copy-row-by-value / set properties on a cell before adding it / capture column handle / grow table (rows wider than the column bookkeeping's capacity) / extend attached row / add separator / render pass / Cell.Update / a property-carrying cell used as the item of a new cell, with an 18-key universe (int(1), int64(1), uint8(1), two named ints, \"1\", float64(1), true, two distinct pointers to equal structs, a struct, an array, align.PropertyType, properties.Skipable, rune, \"a\",\"b\",\"c\"); after EVERY step all (owner, accessor, key) triples are read back and compared with the reference maps. " +
 			"phase 1 (exhaustive over 5 owners x 1-3 keys): %#v dump after 2 rounds of sets must equal the dump after 52 rounds. phase 2 (solo, shard 0): 200k repeated sets must not raise the live heap by more than 4 MB. " +
 			"Distinct = distinct histories; non-trivial = more than 5 steps.",
 		Assumptions: []string{
